@@ -49,9 +49,14 @@ class Hexital:
         if candlestick_type:
             self.candlestick_type = validate_candlesticktype(candlestick_type)
 
+        candles = candles if isinstance(candles, list) else []
+        # indicators with a timeframe of their own are built from the candles as given, not from
+        # what the default manager keeps of them (collapsed, converted and trimmed)
+        source_candles = deepcopy(candles) if indicators else None
+
         self._candles = {
             DEFAULT_CANDLES: CandleManager(
-                candles if isinstance(candles, list) else [],
+                candles,
                 candles_lifespan=self.candles_lifespan,
                 timeframe=self.timeframe,
                 timeframe_fill=self.timeframe_fill,
@@ -59,9 +64,13 @@ class Hexital:
             )
         }
 
-        self._indicators = self._validate_indicators(indicators) if indicators else {}
+        self._indicators = (
+            self._validate_indicators(indicators, source_candles) if indicators else {}
+        )
 
-    def _validate_indicators(self, indicators: List[dict | Indicator]) -> Dict[str, Indicator]:
+    def _validate_indicators(
+        self, indicators: List[dict | Indicator], source_candles: Optional[List[Candle]] = None
+    ) -> Dict[str, Indicator]:
         if not indicators:
             return {}
 
@@ -86,13 +95,16 @@ class Hexital:
             elif indicator.timeframe and indicator.timeframe in self._candles:
                 indicator.candle_manager = self._candles[indicator.timeframe]
             else:
-                candles = deepcopy(self._candles[DEFAULT_CANDLES].candles)
-                if indicator.timeframe != self._candles[DEFAULT_CANDLES].timeframe:
-                    # a different timeframe collapses the raw values and converts its own buckets
-                    for candle in candles:
-                        candle.recover_clean_values()
-                        candle.clean_values = {}
-                        candle.reset_candle()
+                if source_candles is not None:
+                    candles = deepcopy(source_candles)
+                else:
+                    candles = deepcopy(self._candles[DEFAULT_CANDLES].candles)
+                    if indicator.timeframe != self._candles[DEFAULT_CANDLES].timeframe:
+                        # a different timeframe collapses the raw values and converts its own buckets
+                        for candle in candles:
+                            candle.recover_clean_values()
+                            candle.clean_values = {}
+                            candle.reset_candle()
                 manager = CandleManager(
                     candles,
                     candles_lifespan=self.candles_lifespan,
